@@ -94,12 +94,4 @@ def eval7 (cs : List Card) : Res Nat :=
     | _ => .panic
   | _ => .panic
 
-/-- `hand_type`: first matching interval arm, else the wildcard arm (category declaration index) -/
-def handTypeArmsLookup (arms : List (Nat × Nat × Nat)) (i : Nat) : Nat :=
-  match arms with
-  | [] => handTypeWild
-  | (lo, hi, c) :: rest => if lo ≤ i && i ≤ hi then c else handTypeArmsLookup rest i
-
-def handType (i : Nat) : Nat := handTypeArmsLookup handTypeArms i
-
 end EspadaVerif
